@@ -7,8 +7,10 @@ import json, os, re
 from collections import Counter
 
 HARNESSES = [
-    ("network/dag/tree", ["network/dag/tree/zz_verif_c08_test.go", "network/dag/tree/zz_verif_c08_export.go"], "c08tree"),
-    ("network/dag", ["network/dag/zz_verif_c08_test.go", "network/dag/tree/zz_verif_c08_export.go"], "c08state"),
+    ("network/dag/tree", ["network/dag/tree/zz_verif_c08_test.go", "network/dag/tree/zz_verif_c08codec_test.go",
+                          "network/dag/tree/zz_verif_c08_export.go"], "c08tree"),
+    ("network/dag", ["network/dag/zz_verif_c08_test.go", "network/dag/zz_verif_c08codec_test.go",
+                     "network/dag/tree/zz_verif_c08_export.go"], "c08state"),
 ]
 
 REQUIRED = [
@@ -22,7 +24,90 @@ REQUIRED = [
     "fact_diagnostics", "diagnostics_spec", "save_failure_is_rolled_back", "fact_add_critical_section",
     "rollback_reload_race_defect_before_fix", "repair_restores_last_page_on_boundary", "fact_add_write_steps", "fact_add_mutex_spans_rollback_reload", "fact_check_page_is_one_write_transaction", "repair_atomic_wrt_add", "partial_update_is_rolled_back",
     "store_fault_at_any_put",
+    "fact_codec", "leaf_key_roundtrip", "clock_key_roundtrip", "short_value_panics", "hash_list_roundtrip", "index_clock_bytes_refines",
+    "leaf_codec_roundtrip", "leaf_codec_rejects", "load_bytes_refines", "load_bytes_error_unchanged", "persist_keeps_sorted",
+    "load_state_through_bytes",
 ]
+
+STATELESS = ("tcx", "tci", "tcm", "tca", "ckey", "kclk", "phl")
+
+
+def codec_oracle(op, line):
+    """independent re-computation (python struct / int.from_bytes) of what the byte-layer ops of the real code answered.
+    Returns None when fine, else a short reason."""
+    import struct
+    o = op.get("op")
+    hx = lambda k: bytes.fromhex(op.get(k, "") or "")
+    if o == "ckey":
+        c = op.get("clock", 0)
+        want = f"ckey le={c.to_bytes(4, 'little').hex()} be={c.to_bytes(4, 'big').hex()} rt={c},{c}"
+        return None if line == want else f"want {want}"
+    if o == "kclk":
+        v = hx("val")
+        le = str(int.from_bytes(v[:4], "little")) if len(v) >= 4 else "short"
+        be = str(int.from_bytes(v[:4], "big")) if len(v) >= 4 else "short"
+        cnt = str(int.from_bytes(v[:8], "big")) if len(v) >= 8 else "short"
+        want = f"kclk le={le} be={be} cnt={cnt}"
+        return None if line == want else f"want {want}"
+    if o == "phl":
+        v = hx("val")
+        hs = [v[i * 32:(i + 1) * 32].hex() for i in range(len(v) // 32)]
+        want = f"phl n={len(hs)} [{','.join(hs)}] app={(v + hx('ref')).hex()}"
+        return None if line == want else f"want {want[:120]}"
+    if o == "tcx":
+        v = hx("b")
+        want = "tcx ok:" + v.hex() if len(v) == 32 else "tcx err:invalid data length"
+        return None if line == want else f"want {want}"
+
+    def buckets(v):
+        out = []
+        for i in range(len(v) // 44):
+            c, h = struct.unpack("<IQ", v[i * 44:i * 44 + 12])
+            out.append((c, h, v[i * 44 + 12:i * 44 + 44]))
+        return out
+    fmt = lambda bs: " ".join(f"{c}:{h}:{k.hex()}" for c, h, k in bs)
+    if o == "tci":
+        v = hx("b")
+        if len(v) % 44:
+            want = "tci err:invalid data length"
+        else:
+            want = f"tci ok:nb={len(v) // 44} [{fmt(buckets(v))}] m={v.hex()}"
+        return None if line == want else f"want {want[:120]}"
+    if o == "tcm":
+        want = "tcm " + b"".join(struct.pack("<IQ", b["c"], b["h"]) + bytes.fromhex(b["k"]) for b in op.get("bk") or []).hex()
+        return None if line == want else f"want {want[:120]}"
+    if o == "tca":
+        a, b = hx("b"), hx("b2")
+        if len(a) % 44:
+            want = "tca err1:invalid data length"
+        elif len(b) % 44:
+            want = "tca err2:invalid data length"
+        elif len(a) != len(b):
+            want = "tca err:number of buckets do not match"
+        else:
+            s = [((c1 + c2) % 2**32, h1 ^ h2, bytes(x ^ y for x, y in zip(k1, k2))) for (c1, h1, k1), (c2, h2, k2) in zip(buckets(a), buckets(b))]
+            want = f"tca ok:[{fmt(s)}]"
+        return None if line == want else f"want {want[:120]}"
+    if o == "raw":
+        m = re.match(r"raw clk=(\S+) meta=(\S+) x=\[(.*)\] i=\[(.*)\]$", line)
+        if not m:
+            return "unparsable raw line"
+        clk, meta, xs, is_ = m.groups()
+        if clk != "-" and (len(clk) % 64 or len(set(clk[i:i + 64] for i in range(0, len(clk), 64))) != len(clk) // 64):
+            return "clock shelf value is not a duplicate-free list of 32-byte hashes"
+        xk = [e.split("=")[0] for e in xs.split(",") if e]
+        ik = [e.split("=")[0] for e in is_.split(",") if e]
+        if any(len(e.split("=")[1]) != 64 for e in xs.split(",") if e):
+            return "an XOR leaf on disk is not 32 bytes"
+        if meta != "-":
+            lc = int(meta.split("/")[0], 16)
+            pages = lc // 512 + 1
+            want = sorted((256 + 512 * p).to_bytes(4, "little").hex() for p in range(pages))
+            if xk != want or ik != want:
+                return f"leaf keys on disk {xk[:4]}/{ik[:4]} are not clockToKey(splitLC) of pages 0..{pages - 1}"
+        elif xk or ik or clk != "-":
+            return "shelves not empty although no transaction is stored"
+    return None
 
 
 def history_start(ops, i, marker):
@@ -78,6 +163,29 @@ def run_level(ctx, level, pkg, files, name, marker, env_extra):
         k = history_start(ops, i, marker)
         ctx.violation(sig, f"{line[:200]} (op {i} of the run, history starts at op {k}; impl: {impl[i][:160] if i < len(impl) else ''})",
                       f"{level}-{parts[1]}.jsonl", "\n".join(ops[k:i + 1]) + "\n")
+    # ---- byte-layer oracle: independent re-computation of the codec answers of the real code
+    ncodec = 0
+    for i, line in enumerate(impl):
+        if i >= len(ops) or not ops[i]:
+            continue
+        try:
+            o = json.loads(ops[i])
+        except Exception:
+            continue
+        if o.get("op") not in STATELESS + ("raw",):
+            continue
+        ncodec += 1
+        why = codec_oracle(o, line)
+        if why:
+            nfail += 1
+            sig = f"C08:{level}:codec-{o['op']}"
+            if sig in seen:
+                continue
+            seen.add(sig)
+            k = i if o["op"] in STATELESS else history_start(ops, i, marker)
+            ctx.violation(sig, f"byte layer: {o['op']} answered {line[:160]!r}; {why} (op {i})",
+                          f"{level}-codec-{o['op']}.jsonl", "\n".join(ops[k:i + 1]) + "\n")
+    res["codec_checked"] = ncodec
     res["oracle_fail"] = nfail
     ctx.oblige(f"oracle:reference-fold-agrees(impl):{level}", nfail == 0, f"{nfail} ops where the implementation differs from the reference fold")
     panics = [i for i, l in enumerate(impl) if "panic:" in l]
@@ -93,6 +201,11 @@ def run_level(ctx, level, pkg, files, name, marker, env_extra):
         ctx.oblige(f"correspondence:model=impl:{level}", False, f"{len(bad)} of {len(impl)} lines differ; " + detail[:700])
         if nfail == 0 and not panics:
             k = history_start(ops, min(i, len(ops) - 1), marker)
+            try:
+                if json.loads(ops[min(i, len(ops) - 1)]).get("op") in STATELESS:
+                    k = min(i, len(ops) - 1)
+            except Exception:
+                pass
             with open(os.path.join(ctx.replay_dir(), f"correspondence-{level}.jsonl"), "w") as f:
                 f.write("\n".join(ops[k:i + 1]) + "\n")
             ctx.unproved([f"correspondence C08/{level} (model.out != impl.out)"],
